@@ -729,7 +729,7 @@ func (ev *Evaluator) call(e *Expr) Val {
 		}
 		switch e.Name {
 		case "spendable":
-			E.D.Fun("spendable", []Sort{SBytes}, SBool)
+			E.declSpendable()
 		case "numstr":
 			E.D.Fun("numstr", []Sort{SInt}, SStr)
 		case "decstr":
